@@ -145,7 +145,7 @@ def node_harness(v, pid, cmd, tier, seed, rule, timeout=3000):
         s, res = harness(v, pid, "node", cmd, tier, seed, need_rocks=True, timeout=timeout)
     except HarnessCrash as e:
         import re
-        m = re.search(r"(panic: [^\n]*|fatal error: [^\n]*|Assertion[^\n]*)", str(e))
+        m = re.search(r"(WARNING: DATA RACE[^\n]*|panic: [^\n]*|fatal error: [^\n]*|Assertion[^\n]*)", str(e))
         why = m.group(1) if m else "process died"
         v.violation("%s:process-death" % pid, "the process hosting the node(s) died during a scenario of `%s`: %s" % (cmd, why[:300]),
                     dict(kind="process-death", command=cmd, scenario=e.last_input[:4000], seed=seed, tier=tier))
@@ -185,7 +185,7 @@ def node_session(v, pid, cmds, tier, seed, rule, prefixes=None, timeout=3000, ra
         outs = list(ex.map(one, cmds))
     for cmd, res, e in outs:
         if e is not None:
-            m = re.search(r"(panic: [^\n]*|fatal error: [^\n]*|Assertion[^\n]*)", str(e))
+            m = re.search(r"(WARNING: DATA RACE[^\n]*|panic: [^\n]*|fatal error: [^\n]*|Assertion[^\n]*)", str(e))
             why = m.group(1) if m else "process died"
             v.violation("%s:process-death:%s" % (pid, cmd), "the process hosting the node(s) died during a scenario of `%s`: %s" % (cmd, why[:300]),
                         dict(kind="process-death", command=cmd, scenario=e.last_input[:4000], seed=seed, tier=tier))
